@@ -58,6 +58,9 @@ def _analyses():
     jvp_axis = lambda c, w: a7_axis.hazards(c, w, modes=("jvp",))
     vjp_reduce = lambda c, w: a3_reduce.reductions(c, w, modes=("vjp",))
     jvp_reduce = lambda c, w: a3_reduce.reductions(c, w, modes=("jvp",))
+    vjp_fold = lambda c, w: a3_reduce.axis_loops_fold(c, w, modes=("vjp",))
+    jvp_fold = lambda c, w: a3_reduce.axis_loops_fold(c, w, modes=("jvp",))
+    all_fold = lambda c, w: a3_reduce.axis_loops_fold(c, w, modes=("vjp", "jvp"))
     vjp_rank = lambda c, w: a3.rank_alignment(c, w, modes=("vjp",))
     jvp_rank = lambda c, w: a3.rank_alignment(c, w, modes=("jvp",))
     vjp_batch = lambda c, w: a3_reduce.stacked_batches(c, w, modes=("vjp",))
@@ -75,16 +78,16 @@ def _analyses():
     thread = lambda c, w: kt.global_effects(c, w, thread=True)
     return {
         "C01": (
-            [a3.vjp, a3.helpers, a3.einsum_sublist_target, vjp_reduce, vjp_batch, vjp_rank, a3.restored_rank, km.squeeze_axes, a16_perm.permutations_rule, a16_perm.norm_rolls, a17_labels.contraction_adjoints, vjp_axis, vjp_none, vjp_order, a2.catchall, a2.forwarded_defaults, vjp_drop, vjp_ignored, a2.variadic, a2.argnums_rules, a2.positional_selection, a1.arity, ka.option_domains, ka.option_dispatch_distinct, a5_factor.agree, vjp_alias, a5_linear.closures_linear, a5_linear.linear_args_unread, ka.arraybox_table, kc.inplace_sites],
+            [a3.vjp, a3.helpers, a3.einsum_sublist_target, vjp_reduce, vjp_batch, vjp_rank, vjp_fold, a3.restored_rank, km.squeeze_axes, a16_perm.permutations_rule, a16_perm.norm_rolls, a17_labels.contraction_adjoints, vjp_axis, vjp_none, vjp_order, a2.catchall, a2.forwarded_defaults, vjp_drop, vjp_ignored, a2.variadic, a2.argnums_rules, a2.positional_selection, a1.arity, ka.option_domains, ka.option_dispatch_distinct, a5_factor.agree, vjp_alias, a5_linear.closures_linear, a5_linear.linear_args_unread, ka.arraybox_table, kc.inplace_sites],
             "Reverse-mode exactness is numerical; decided here are the configuration-dependent plumbing clauses every exact rule needs: "
-            "broadcast discipline of VJPs (A3.vjp), batch members of stacked-matrix functions kept apart (A3.batch), shapes paired from the right or under an established equal rank (A3.rank), the cotangent of rank-changing functions (cumsum of a 0-d operand, axis=None of cumsum / repeat / sort / partition) reshaped to the operand's shape (A3.restore), negative-axis hazards (A7), axis=None of the flattening functions never replaced by an explicit axis (A7.none), layout-relative `order` values never forwarded to the cotangent (A7.order), keyword/positional binding behind catch-alls (A2.catchall), equal names and defaults where (*args, **kwargs) are forwarded to another NumPy function (A2.fwd), no option handed on incompletely (A2.drop) or accepted and never read (A2.ignored), "
+            "broadcast discipline of VJPs (A3.vjp), batch members of stacked-matrix functions kept apart (A3.batch), shapes paired from the right or under an established equal rank (A3.rank), per-axis quantities combined over all given axes (A3.fold), the cotangent of rank-changing functions (cumsum of a 0-d operand, axis=None of cumsum / repeat / sort / partition) reshaped to the operand's shape (A3.restore), negative-axis hazards (A7), axis=None of the flattening functions never replaced by an explicit axis (A7.none), layout-relative `order` values never forwarded to the cotangent (A7.order), keyword/positional binding behind catch-alls (A2.catchall), equal names and defaults where (*args, **kwargs) are forwarded to another NumPy function (A2.fwd), no option handed on incompletely (A2.drop) or accepted and never read (A2.ignored), "
             "variadic offsets (A2.variadic), whole-argnums rules map element-wise (A2.argnums), slots of variadic primitives addressed by position, never by operand identity (A2.position), arity (A1.arity), closed option domains (A6.enum), VJP/JVP factor agreement of elementwise rules (A5), equal rules for two names of one NumPy function (A5.alias), linearity of every rule closure in its cotangent (A5.lin: a VJP is a linear map; helper primitives it calls must be known to be linear in that operand) "
             "and the operator/method call forms (A14); no rule writes in place to its cotangent, its arguments or the answer (A9.inplace: every other rule that reads the same array would see the changed values). Each is a necessary condition: breaking one makes some call configuration silently wrong.",
         ),
         "C02": (
-            [a1.lin, a3.jvp, a3.helpers, jvp_reduce, jvp_batch, jvp_rank, a16_perm.norm_rolls, ka.sibling_guards, jvp_axis, jvp_none, jvp_order, a2.catchall, a2.forwarded_defaults, jvp_drop, jvp_ignored, a2.positional_selection, a1.arity, kc.zero_paths, a5_factor.agree, jvp_alias, a5_linear.closures_linear, kc.inplace_sites],
+            [a1.lin, a3.jvp, a3.helpers, jvp_reduce, jvp_batch, jvp_rank, jvp_fold, a16_perm.norm_rolls, ka.sibling_guards, jvp_axis, jvp_none, jvp_order, a2.catchall, a2.forwarded_defaults, jvp_drop, jvp_ignored, a2.positional_selection, a1.arity, kc.zero_paths, a5_factor.agree, jvp_alias, a5_linear.closures_linear, kc.inplace_sites],
             "Forward-mode: 'same'/def_linear only on linear (function, argument) pairs (A1.lin: exactly when the primitive applied to the tangent IS the JVP), "
-            "output-shaped tangents of broadcasting JVPs (A3.jvp), batch members of stacked-matrix functions kept apart (A3.batch), guard agreement with the VJP twin (A6.sibling), axis hazards (A7, A7.none), layout-relative `order` values (A7.order) and binding (A2; slots of variadic primitives addressed by position, A2.position) of JVP makers, "
+            "output-shaped tangents of broadcasting JVPs (A3.jvp), batch members of stacked-matrix functions kept apart (A3.batch), per-axis quantities combined over all given axes (A3.fold), guard agreement with the VJP twin (A6.sibling), axis hazards (A7, A7.none), layout-relative `order` values (A7.order) and binding (A2; slots of variadic primitives addressed by position, A2.position) of JVP makers, "
             "(value, tangent) order and zero tangents of the right space (A13.zero/A2.tuple), VJP/JVP factor agreement of elementwise rules (A5), equal rules for two names of one NumPy function (A5.alias), linearity of every rule in its tangent (A5.lin); no JVP rule writes in place to the tangent, the arguments or the answer it is given (A9.inplace: the tangent stored on the parent node is read again by every later consumer).",
         ),
         "C03": (
@@ -109,14 +112,14 @@ def _analyses():
             "parameter names, positions and defaults (A6.wrapsig) and apply a forwarded option pack exactly once, never per nested element (A6.optpack); container boxes answer structure queries (len, iteration order, membership) exactly as the raw container does (A14.containers); the isinstance / type replacements ask the builtin about the fully unboxed value (A14.typeq); no re-implemented wrapper branches on whether an operand is traced (A6.tracedpath); no in-place write to a parameter (A9.inplace).",
         ),
         "C07": (
-            [a8_taint.traceable, a1.helpers, kc.closure_reuse, a5_factor.agree, a5_linear.closures_linear, kt.trace_fn, kt.wrapper, kt.notrace_wrapper, kt.find_top, kt.new_trace],
+            [a8_taint.traceable, a1.helpers, kc.closure_reuse, a5_factor.agree, a5_linear.closures_linear, all_fold, kt.trace_fn, kt.wrapper, kt.notrace_wrapper, kt.find_top, kt.new_trace],
             "Closure under differentiation: no raw numpy call on a possibly traced operand inside a non-primitive rule body (A8), every helper primitive used at backward time "
-            "has its own VJP and VSpace arithmetic has both rules (A1.helpers), backward closures are re-usable (A10), no rule selects on the raw value of its (co)tangent unless the shortcut is disabled for traced (co)tangents (A5.lin/A5.cut).",
+            "has its own VJP and VSpace arithmetic has both rules (A1.helpers), backward closures are re-usable (A10), no rule selects on the raw value of its (co)tangent unless the shortcut is disabled for traced (co)tangents (A5.lin/A5.cut); the rules that the backward pass of var / std / norm re-enters (mean, sum, ...) combine per-axis quantities over all given axes (A3.fold).",
         ),
         "C08": (
-            [kt.trace_fn, kt.wrapper, kt.find_top, kt.new_trace, ka.operators, km.products, kc.node_slots, ka.arraybox_table],
+            [kt.trace_fn, kt.wrapper, kt.find_top, kt.new_trace, ka.operators, km.products, kc.node_slots, ka.arraybox_table, a5_linear.cotangent_selections],
             "No perturbation confusion: the three mechanisms of tracer.py on all paths - inner traces get strictly larger ids (A12.bal), only top-trace boxes are unboxed and the "
-            "list resets on strictly greater / appends on equal (A12.top), dependence by id equality, re-entry of the wrapper for lower levels, answer boxed with the arguments' trace (A13.unbox); the node constructors hand the answer and the arguments to the rule exactly as the wrapper passed them - still boxed for every enclosing trace (A2.slot: a rule evaluated on unboxed values detaches the inner derivative from all outer levels); every ArrayBox operator hands BOTH operands to the NumPy function the data model names, whatever their values (A14: a shortcut chosen by the value of an operand that is traced at another level drops that level's dependence).",
+            "list resets on strictly greater / appends on equal (A12.top), dependence by id equality, re-entry of the wrapper for lower levels, answer boxed with the arguments' trace (A13.unbox); the node constructors hand the answer and the arguments to the rule exactly as the wrapper passed them - still boxed for every enclosing trace (A2.slot: a rule evaluated on unboxed values detaches the inner derivative from all outer levels); every ArrayBox operator hands BOTH operands to the NumPy function the data model names, whatever their values (A14: a shortcut chosen by the value of an operand that is traced at another level drops that level's dependence); no derivative rule chooses its code path by the raw value of its (co)tangent (A5.cut: the (co)tangent of an inner differentiation is a box of the outer one).",
         ),
         "C09": (
             [a4.vspace, a4.match, a4.match_jvp, a4.modulus, a5_factor.agree, ka.operators, a4_dtype.dtype_comparisons, a4_parity.conj_parity, a4_parity.holomorphic_factors, ka.option_dispatch_distinct],
@@ -144,9 +147,9 @@ def _analyses():
             "compares type and structure fields, ComplexArrayVSpace overrides (A4.vspace), purity and mut_add(None, x) freshness (A9.pure).",
         ),
         "C14": (
-            [kc.zero_paths, kc.closure_reuse, a1.nograd, a1.sym, a1.none_rules, a1.methods, ka.arraybox_table, kt.wrapper, kt.notrace_wrapper, kt.trace_fn, a3.vjp_locally_constant, kc.programmatic_registrations, a7_axis.zero_shapes, kc.purity],
+            [kc.zero_paths, kc.closure_reuse, a1.nograd, a1.sym, a1.none_rules, a1.methods, ka.arraybox_table, kt.wrapper, kt.notrace_wrapper, kt.trace_fn, a3.vjp_locally_constant, kc.programmatic_registrations, a7_axis.zero_shapes, kc.purity, a5_linear.cotangent_selections],
             "Exact zeros: independent outputs give zeros of the right space and never None (A13.zero); everything declared non-differentiable is locally constant (A1.nograd/none/methods, "
-            "facts about NumPy) for both node types (A1.sym); comparisons map to untraced functions, __bool__/shape/len read the raw value (A14); the notrace branch returns plain values; a written-out rule for a locally constant argument has that argument's shape support (A3.vjp); a zero that a rule builds itself does not get its shape from axis arithmetic that changes meaning for a negative axis (A7.zero); the zeros / ones / basis vectors of a space are built in the space's own dtype, never promoted with a fixed type (A9.pure precision clause: a float32 argument gets a float32 zero).",
+            "facts about NumPy) for both node types (A1.sym); comparisons map to untraced functions, __bool__/shape/len read the raw value (A14); the notrace branch returns plain values; a written-out rule for a locally constant argument has that argument's shape support (A3.vjp); a zero that a rule builds itself does not get its shape from axis arithmetic that changes meaning for a negative axis (A7.zero); the zeros / ones / basis vectors of a space are built in the space's own dtype, never promoted with a fixed type (A9.pure precision clause: a float32 argument gets a float32 zero); no rule has a separate code path for a zero (co)tangent - exactly the path an independent output takes and a random-cotangent test never does - other than the term-skipping form whose two paths return the same expression (A5.cut).",
         ),
         "C15": (
             [kc.raise_discipline, ka.guard_dominance, ka.option_domains, ka.sibling_guards, ka.raw_calls_in_wrappers, ka.arraybox_table, ka.operators, a1.nograd, a1.none_rules, _namespace_classes, km.wrap_namespace, km.guard_functions, a16_perm.norm_support, a16_perm.permutations_rule, a2.ignored_options, ka.rank_guards],
@@ -165,15 +168,15 @@ def _analyses():
             "registration slots and wrapper hand-over (A2.slot), whole-argnums rules map element-wise (A2.argnums), argnums= honoured (also by the adapters that register rules themselves: makers and argnums= of equal length by construction), 'same'/def_linear substitute at argnum, checkpoint wiring (A15).",
         ),
         "C18": (
-            [kck.checker, kck.rng_independence],
+            [kck.checker, kck.rng_independence, kck.complex_probes],
             "Gradient checker, structural clauses only: check_grads reaches the comparison of each requested mode at each requested order and recurses on the derivative closure of the same mode (A18.modes); "
             "check_vjp asserts the adjoint identity between the reverse-mode rule and the numerical JVP on one pair of random vectors, check_jvp / check_equivalent compare element [1] of the forward-mode rule with the numerical JVP on the same direction and assert equal spaces (A18.compare); "
-            "the numerical JVP is a symmetric difference with matching scale (A18.numjvp); scalar_close uses small positive tolerances (A18.tol); the random probes are successive draws of one running stream - nothing under autograd/ seeds or restores a generator state (A18.rng).",
+            "the numerical JVP is a symmetric difference with matching scale (A18.numjvp); scalar_close uses small positive tolerances (A18.tol); the random probes are successive draws of one running stream - nothing under autograd/ seeds or restores a generator state (A18.rng); the probe of the complex array space draws real and imaginary part independently (A18.probe).",
         ),
         "C19": (
-            [kt.global_effects, kt.trace_id_uses, kt.new_trace, kc.closure_reuse, kc.backward_pass, kc.zero_paths],
+            [kt.global_effects, kt.trace_id_uses, kt.new_trace, kc.closure_reuse, kc.backward_pass, kc.zero_paths, kc.inplace_sites],
             "History independence: the differentiation path writes exactly one piece of process-global state (A11), which is observed only through order/equality comparisons of ids of "
-            "live boxes and updated only by balanced +-1 (A12.cmp/bal): results are invariant under any shift of ids, so a leaked increment after an exception cannot change them; closures re-usable (A10); no nested function that escapes its factory writes state captured from the factory's scope (A11.state, captured-state clause).",
+            "live boxes and updated only by balanced +-1 (A12.cmp/bal): results are invariant under any shift of ids, so a leaked increment after an exception cannot change them; closures re-usable (A10); no nested function that escapes its factory writes state captured from the factory's scope (A11.state, captured-state clause); no function writes into an object it was handed (graph nodes, boxes, arguments - A9.inplace: what a call leaves behind on objects that outlive it, e.g. a counter on the nodes of a retained graph, is read by the next call and is wrong after a call that raised half-way).",
         ),
         "C20": (
             [thread, kt.new_trace, kt.trace_id_uses],
